@@ -2,7 +2,7 @@
 (events + the tokens a run produced, from the daemon or from the model).  Written
 from the property text, independently of the model's table:
 
-  calls      = A/U/S events, identified by (sender, serial), in order of arrival
+  calls      = A/B/U/S events, identified by (sender, serial), in order of arrival
   fate       = f (passed on), s (StartServiceByName reply), e (error) token for a call
   activation = opened by an sp.<sid>.<name> token; closed when the name is taken
                (R answered with code 1), when the start times out (T) or when the
@@ -15,6 +15,7 @@ from the property text, independently of the model's table:
                still-connected sender for that name was left without a fate
   overreach    a process failure answered callers of a name whose own process did not fail
   respawn      a process was started for a name whose activation was still open
+  driver-call-unanswered   RequestName / ReleaseName / ReloadConfig of a connected caller got no answer in its step
   delivered-after-error / never (covered by twice)
 Returns a list of (kind, detail)."""
 
@@ -28,6 +29,7 @@ def run_oracle(services, events, toks):
     open_act = {}               # name -> sid
     owner = {}                  # name token -> conn
     name_of_sid = {}
+    open_exec = {}
     conn_of_sid = {}
     exec_of = {}
     for n, x, kind in services:
@@ -48,7 +50,7 @@ def run_oracle(services, events, toks):
             if k == "K":
                 conn_of_sid[int(p[1])] = nconn
             nconn += 1
-        elif k in ("A", "U", "S"):
+        elif k in ("A", "B", "U", "S"):
             c, serial, name = int(p[1]), int(p[2]), p[3]
             new_call = {"id": order, "conn": c, "serial": serial, "name": name, "auto": k != "S", "fates": [], "immediate": False}
             calls[(c, serial)] = new_call
@@ -72,6 +74,7 @@ def run_oracle(services, events, toks):
                 if name in open_act:
                     verdicts.append(("respawn", "process %s started for %s while the activation with process %s is open" % (sid, name, open_act[name])))
                 open_act[name] = int(sid)
+                open_exec[name] = exec_of.get(name)          # the Exec line is copied into the pending activation
                 name_of_sid[int(sid)] = name
                 continue
             if t.startswith("k."):
@@ -105,6 +108,11 @@ def run_oracle(services, events, toks):
             ids = [calls[k2]["id"] for k2 in keys if k2 in calls]
             if ids != sorted(ids):
                 verdicts.append(("order", "to %d in step %s: arrival numbers %s" % (r, ev, ids)))
+        # ---- a driver call is answered in the step that carries it
+        if k in ("R", "L", "Z") and int(p[1]) in live:
+            c, serial = int(p[1]), int(p[2])
+            if not any(t.startswith("%d:d.%d." % (c, serial)) or t.startswith("%d:e.%d." % (c, serial)) for t in parts):
+                verdicts.append(("driver-call-unanswered", "%s by %d (serial %d) got neither a reply nor an error" % (ev, c, serial)))
         # ---- closings
         if k == "R":
             c, serial, name = int(p[1]), int(p[2]), "w" + p[3]
@@ -137,7 +145,7 @@ def run_oracle(services, events, toks):
                 open_act.pop(name, None)
                 # the bus also gives up every other activation with the same Exec line (F19.2); with no connected waiter
                 # left that shows nowhere, so it is taken from the service table to keep the respawn check honest
-                for m in [m for m in open_act if exec_of.get(m) == exec_of.get(name)]:
+                for m in [m for m in open_act if open_exec.get(m) == open_exec.get(name)]:
                     open_act.pop(m, None)
             # activations closed as collateral (same Exec) are noted so that later starts are not flagged
             for c, q in answered_now:
